@@ -62,6 +62,29 @@ var extMayPanic = []string{
 	"cosmos-sdk/types.(Coins).Sub", "cosmos-sdk/types.(Int).Quo", "cosmos-sdk/types.(Dec).Quo", "math/big.(*Int).Div", "math/big.(*Int).Mod", "math/big.(*Int).Quo", "math/big.(*Int).Rem",
 }
 
+// indexBounded: the computed index is provably inside the slice by one of the recognised idioms: a dominating
+// idx < len(base) test on that same base (range / counted loop over the same slice), or idx = … % len(base).
+func indexBounded(c *Check, fn *ssa.Function, b *ssa.BasicBlock, base, idx string) bool {
+	if strings.HasSuffix(idx, " % len("+base+"))") {
+		return true
+	}
+	conds := c.P.FA(fn).PathCondStrings(b)
+	if conds["("+idx+" < len("+base+"))"] {
+		return true
+	}
+	// bounded by another slice whose length was tested equal to this one's
+	for k := range conds {
+		pre := "(" + idx + " < len("
+		if strings.HasPrefix(k, pre) && strings.HasSuffix(k, "))") {
+			other := k[len(pre) : len(k)-2]
+			if conds["(len("+other+") == len("+base+"))"] || conds["(len("+base+") == len("+other+"))"] {
+				return true
+			}
+		}
+	}
+	return false
+}
+
 var parseFns = []string{"math/big.(*Int).SetString", "strconv.ParseUint", "strconv.ParseInt", "strconv.Atoi", "cosmos-sdk/types.NewIntFromString",
 	"cosmos-sdk/types.AccAddressFromBech32", "cosmos-sdk/types.ValAddressFromBech32", "cosmos-sdk/types.NewDecFromStr", "encoding/hex.DecodeString", "client/types.ParseHeight"}
 
@@ -101,6 +124,11 @@ func panicSites(c *Check, fn *ssa.Function) []panicSite {
 				if k, ok := v.Index.(*ssa.Const); ok {
 					if _, isSlice := v.X.Type().Underlying().(*types.Slice); isSlice {
 						out = append(out, panicSite{fn, "const-index", fmt.Sprintf("%s[%d]", x.E(v.X).String(), k.Int64()), v.Pos(), v})
+					}
+				} else if _, isSlice := v.X.Type().Underlying().(*types.Slice); isSlice {
+					base, idx := x.E(v.X).String(), x.E(v.Index).String()
+					if !indexBounded(c, fn, v.Block(), base, idx) {
+						out = append(out, panicSite{fn, "var-index", fmt.Sprintf("%s[%s]", base, idx), v.Pos(), v})
 					}
 				}
 			case *ssa.Index:
@@ -302,6 +330,9 @@ func c15(c *Check) {
 		{fn: "tendermint/types.bigEndianHeightBytes", kind: "slice-bounds", what: "zero([16]byte)[:16][8:]", reason: "constant bounds inside a 16-byte array"},
 		{fn: "xibc/module.(AppModule).InitGenesis", kind: "panic", what: "failed to unmarshal", reason: "malformed genesis JSON (rejected by ValidateGenesis as well)"},
 		{fn: "bsc/types.ParseValidators", kind: "slice-bounds", what: "[(μ{0} * 20):((μ{0} + 1) * 20)]", reason: "loop bound n = len/20"},
+		{fn: "bsc/types.ParseValidators", kind: "var-index", what: "make([][]byte)[μ{0}]", reason: "result is made with length n and the loop runs i < n"},
+		{fn: "aggregate/keeper.(Keeper).CallEVMWithData", kind: "var-index", what: "make([]cosmos-sdk/types.Attribute)[(μ{-1} + 1)]", reason: "attribute slice is made with len(res.Logs) and indexed by the range index over res.Logs"},
+		{fn: "client/types.ParseChainID", kind: "var-index", what: "[(len(strings.Split($0, \"-\")) - 1)]", reason: "strings.Split returns at least one element"},
 	}
 
 	roots := c15Roots(c)
